@@ -63,6 +63,42 @@ KEYWORDS = ["Dataset", "Structure", "Sequence", "Grid", "Array", "Maps", "Array:
             "String", "Url", "Int", "UInt", "Attributes", "grid", "STRUCTURE", "sequence", "dataset", "array", "MAPS"]
 
 
+RAW_EXTRA = " .&()#,:{}=!*'\"%~-@+]\t"
+
+
+def own_quote(s):
+    """the harness's own reading of the DAP2 name quoting (independent of pydap.lib._quote and of urllib): ASCII letters,
+    digits and _-~%!*'"/ stay, everything else becomes %XX of its UTF-8 bytes (so `.` -> %2E, `[` -> %5B, blank -> %20)"""
+    out = []
+    for ch in s:
+        if ord(ch) < 128 and (ch.isalnum() or ch in "_-~%!*'\"/"):
+            out.append(ch)
+        else:
+            out.append("".join("%%%02X" % b for b in ch.encode("utf-8")))
+    return "".join(out)
+
+
+def dap4_identifier(rng):
+    """an identifier starting with `dap4` (`dap4x`, `dap4_t1`): `_quote` passes its first 8 characters through unquoted,
+    which changes nothing for an identifier — inside the theorems' domain (`C07_quoted_names`, `RawNameOk.dap4`)"""
+    return "dap4" + "".join(rng.choice(IDENT) for _ in range(rng.randint(0, 6)))
+
+
+def dap4_outside(s):
+    """names starting with `dap4` other than identifiers: DAP4 path handling, outside the model"""
+    return s.startswith("dap4") and not all(c in IDENT + "dp" for c in s)
+
+
+def gen_raw_name(rng):
+    """a name as a foreign server may spell it raw in a DDS: characters pydap must quote (blank, `.`, `&`, `(`, `]` ...),
+    no `;`, no `[`, no `/`, no white space at either end (theorem C07_foreign: `RawNameOk`)"""
+    while True:
+        n = rng.randint(1, 6)
+        s = "".join(rng.choice(IDENT + RAW_EXTRA) for _ in range(n))
+        if s == s.strip() and s and own_quote(s) != s and "dap4" not in s.lower():
+            return s
+
+
 def gen_name(rng, used, plain=0.5, anc=()):
     """`anc`: names of the enclosing containers (a child named like its parent / grandparent is legal)"""
     for _ in range(50):
@@ -72,11 +108,13 @@ def gen_name(rng, used, plain=0.5, anc=()):
             s = rng.choice(anc)
         elif r < 0.12:
             s = rng.choice(KEYWORDS)
+        elif r < 0.15:
+            s = dap4_identifier(rng)
         elif rng.random() < plain:
             s = rng.choice("abcxyzABCXYZ_") + "".join(rng.choice(IDENT) for _ in range(n - 1))
         else:
             s = "".join(rng.choice(IDENT + QUOTE_NEEDED + QUOTE_NEEDED) for _ in range(n))
-        if s.startswith("dap4") or s in used:
+        if dap4_outside(s) or s in used:
             continue
         used.add(s)
         return s
@@ -462,9 +500,12 @@ def gen_foreign(rng, depth=1, in_grid=False):
     """returns (declared view, token list) for one declaration"""
     used = set()          # names of the container being generated (siblings are distinct; scopes nest)
     anc = []              # names already used in the enclosing scopes (may be reused inside)
+    RAW = {}              # quoted name -> the spelling used in the text (the last one drawn for it)
 
-    def name(members=()):
-        """members: the views of the container being named (a container may be named like one of its members)"""
+    def name(members=(), raw=False):
+        """members: the views of the container being named (a container may be named like one of its members).
+        raw: the name may be spelled with characters pydap quotes (`a.b c`); the text carries the raw spelling, the
+        declared view the quoted one (`RAW[quoted] = raw spelling`)"""
         for _ in range(30):
             r = rng.random()
             if members and r < 0.10:
@@ -473,11 +514,17 @@ def gen_foreign(rng, depth=1, in_grid=False):
                 s = rng.choice(anc)
             elif r < 0.16:
                 s = rng.choice([k for k in KEYWORDS if ":" not in k])
+            elif raw and r < 0.36:
+                s = gen_raw_name(rng)
+            elif r < 0.39:
+                s = dap4_identifier(rng)
             else:
                 s = rng.choice("abcxyzABCXYZ_") + "".join(rng.choice(IDENT + "%-~") for _ in range(rng.randint(0, 5)))
-            if s not in used and not s.startswith("dap4"):
-                used.add(s)
-                return s
+            q = own_quote(s)
+            if q not in used and not dap4_outside(s):
+                used.add(q)
+                RAW[q] = s
+                return q
         raise RuntimeError
 
     class scope(object):
@@ -495,11 +542,11 @@ def gen_foreign(rng, depth=1, in_grid=False):
     def base(n=None, dimspec=None):
         """dimspec: [(dimension name or None, extent)] (default: random)"""
         t = rng.choice(list(FOREIGN_TYPES))
-        n = name() if n is None else n
+        n, spelled = (lambda q: (q, RAW[q]))(name(raw=True)) if n is None else (n, n)
         if dimspec is None:
             named = rng.random() < 0.5
             dimspec = [(gen_dim(rng) if named else None, gen_extent(rng)) for _ in range(rng.choice([0, 1, 1, 2, 3]))]
-        shape, dims, toks = [], [], [("kw", t), ("ws1",), ("name", n)]
+        shape, dims, toks = [], [], [("kw", t), ("ws1",), ("name", spelled)]
         for d, e in dimspec:
             shape.append(e)
             toks.append(("p", "["))
@@ -534,30 +581,30 @@ def gen_foreign(rng, depth=1, in_grid=False):
                 with scope():
                     arr, t0 = base()
                     maps = [base() for _ in range(rng.randint(0, 3))]
-            n = name([arr] + [m for m, _ in maps])
+            n = name([arr] + [m for m, _ in maps], raw=True)
             toks = [("kw", "Grid"), ("p", "{"), ("kw", "Array"), ("p", ":")] + t0 + [("kw", "Maps"), ("p", ":")]
             for _, t in maps:
                 toks += t
-            toks += [("p", "}"), ("name", n), ("p;",)]
+            toks += [("p", "}"), ("name", RAW[n]), ("p;",)]
             return ("g", n, [arr] + [m for m, _ in maps]), toks
         kw, tag = rng.choice([("Structure", "st"), ("Sequence", "sq")])
         with scope():
             kids = [decl(depth + 1) for _ in range(rng.randint(0, 3))]
-        n = name([k for k, _ in kids])
+        n = name([k for k, _ in kids], raw=True)
         toks = [("kw", kw), ("p", "{")]
         for _, t in kids:
             toks += t
-        toks += [("p", "}"), ("name", n), ("p;",)]
+        toks += [("p", "}"), ("name", RAW[n]), ("p;",)]
         return (tag, n, [k for k, _ in kids]), toks
 
     kids = [decl(1) for _ in range(rng.randint(0, 4))]
     anc.extend(sorted(used))
     used.clear()
-    n = name([k for k, _ in kids])
+    n = name([k for k, _ in kids], raw=True)
     toks = [("kw", "Dataset"), ("p", "{")]
     for _, t in kids:
         toks += t
-    toks += [("p", "}"), ("name", n), ("p;",)]
+    toks += [("p", "}"), ("name", RAW[n]), ("p;",)]
     return ("ds", n, [k for k, _ in kids]), toks
 
 
@@ -600,12 +647,20 @@ def implicit_dims(view):
 
 
 def partially_named(view):
-    """some array declares names for some of its dimensions only (`Int32 a[x = 2][3]`): pydap's BaseType keeps the
-    names it saw (`dims = ('x',)`), which no longer says which axis they name; parsed as declared, but outside what
-    the print side of the property quantifies over ("with or without named dimensions"): printing is not judged"""
+    """some array declares names for some of its dimensions only (`Int32 a[x = 2][3]`, legal DAP2): a BaseType's `dims`
+    is a tuple of names that every consumer pairs with the extents one to one, so it cannot say which axes are named"""
     if view[0] == "b":
         return 0 < len(view[4]) < len(view[3])
     return any(partially_named(k) for k in view[2])
+
+
+def declared_structure(view):
+    """the structure a foreign text declares, as far as pydap's model can hold it: the spelled view, except that an
+    array naming only some of its dimensions keeps its SHAPE and has no dimension names (repair of round 7: the parser
+    used to keep the partial tuple of names, and dds() - zipping names with extents - then declared a shorter array)"""
+    if view[0] == "b":
+        return view[:4] + ((),) if partially_named(view) else view
+    return (view[0], view[1], [declared_structure(k) for k in view[2]])
 
 
 def reference_text(view, level=0):
@@ -631,6 +686,7 @@ def judge_foreign(P, text, view):
     declared — members and MAPS in declared order, names, types, extents, dimension names; (3) that reference text
     parses to the same structure and (4) is reproduced exactly when printed again."""
     bad = []
+    view = declared_structure(view)
     d, dump = impl_parse(P, text)
     if d is None:
         return [("foreign-style DDS does not parse", dump, repr(view))], None, dump
@@ -638,8 +694,6 @@ def judge_foreign(P, text, view):
     if got != norm_dt(view):
         bad.append(("foreign-style DDS parses to a different structure than it declares", repr(got),
                     repr(norm_dt(view))))
-    if partially_named(view):
-        return bad, d, dump
     exp = implicit_dims(view)
     ref = reference_text(exp)
     try:
@@ -665,9 +719,16 @@ def judge_foreign(P, text, view):
     return bad, d, dump
 
 
+RAW_ESCAPES = tuple("%%%02X" % ord(c) for c in RAW_EXTRA if own_quote(c) != c)
+
+
 def foreign_features(view, out=None):
     out = set() if out is None else out
+    if any(e in view[1] for e in RAW_ESCAPES):
+        out.add("foreign-name-spelled-raw(quoted-by-the-parser)")
     if view[0] == "g":
+        if any(e in b[1] for b in view[2] for e in RAW_ESCAPES):
+            out.add("foreign-name-spelled-raw(quoted-by-the-parser)")
         spec = ("g", view[1], [("b", b[1], "d", b[3], b[4], True) for b in view[2]])
         out |= set("foreign-" + f for f in grid_features(spec))
     elif view[0] != "b":
@@ -702,29 +763,38 @@ def gs_sexp(gs):
 
 def gen_fds(rng):
     """returns (sexp for the driver, declared view) of a decorated foreign dataset"""
-    def name(used, prefer=()):
-        """prefer: names of the members / of enclosing scopes (legal, unconventional)"""
+    RAW = {}              # quoted name -> the spelling given to the Lean printer (the last one drawn for it)
+
+    def name(used, prefer=(), raw=False):
+        """prefer: names of the members / of enclosing scopes (legal, unconventional).  raw: may be a name pydap
+        quotes (`a.b c`): the printer gets the raw spelling (`RAW[quoted]`), the declared view the quoted name"""
         for _ in range(30):
             r = rng.random()
             if prefer and r < 0.10:
                 s = rng.choice(prefer)
             elif r < 0.18:
                 s = rng.choice([k for k in KEYWORDS if ":" not in k])
+            elif raw and r < 0.40:
+                s = gen_raw_name(rng)
+            elif r < 0.43:
+                s = dap4_identifier(rng)
             else:
                 s = "".join(rng.choice(IDENT + DIM_EXTRA) for _ in range(rng.randint(1, 5)))
-            if s not in used and "dap4" not in s.lower():
-                used.add(s)
-                return s
+            q = own_quote(s)
+            if q not in used and not dap4_outside(s):
+                used.add(q)
+                RAW[q] = s
+                return q
         raise RuntimeError
 
     def fbase(used, n=None, dims=None, anc=()):
         t = rng.choice(list(LOWER_TYPES))
-        n = name(used, anc) if n is None else n
+        n, spelled = (lambda q: (q, RAW[q]))(name(used, anc, raw=True)) if n is None else (n, n)
         if dims is None:
             dims = []
             for _ in range(rng.choice([0, 1, 1, 2, 3])):
                 dims.append((gen_dim(rng) if rng.random() < 0.5 else None, gen_extent(rng)))
-        sx = "(fb %s %s (%s) %s)" % (tx(rnd_case(rng, t)), tx(n),
+        sx = "(fb %s %s (%s) %s)" % (tx(rnd_case(rng, t)), tx(spelled),
                                      " ".join("(%s %d)" % ("none" if d is None else tx(d), e) for d, e in dims),
                                      gs_sexp(gen_gaps(rng, 7)))
         return sx, ("b", n, LOWER_TYPES[t], tuple(e for _, e in dims), tuple(d for d, _ in dims if d is not None))
@@ -746,23 +816,23 @@ def gen_fds(rng):
             else:
                 arr, va = fbase(inner, anc=anc)
                 maps = [fbase(inner, anc=anc) for _ in range(rng.randint(0, 3))]
-            n = name(used, [va[1]] + [v[1] for _, v in maps])
+            n = name(used, [va[1]] + [v[1] for _, v in maps], raw=True)
             sx = "(fg %s %s %s %s %s %s (%s))" % (tx(rnd_case(rng, "grid")), tx(rnd_case(rng, "array")),
-                                                 tx(rnd_case(rng, "maps")), tx(n), gs_sexp(gen_gaps(rng, 8)), arr,
+                                                 tx(rnd_case(rng, "maps")), tx(RAW[n]), gs_sexp(gen_gaps(rng, 8)), arr,
                                                  " ".join(m for m, _ in maps))
             return sx, ("g", n, [va] + [v for _, v in maps])
         is_seq = rng.random() < 0.4
         inner = set()
         kids = [decl(depth + 1, inner, anc + tuple(sorted(used))) for _ in range(rng.randint(0, 3))]
-        n = name(used, [v[1] for _, v in kids])
+        n = name(used, [v[1] for _, v in kids], raw=True)
         sx = "(fc %d %s %s %s (%s))" % (1 if is_seq else 0, tx(rnd_case(rng, "sequence" if is_seq else "structure")),
-                                        tx(n), gs_sexp(gen_gaps(rng, 4)), " ".join(k for k, _ in kids))
+                                        tx(RAW[n]), gs_sexp(gen_gaps(rng, 4)), " ".join(k for k, _ in kids))
         return sx, ("sq" if is_seq else "st", n, [v for _, v in kids])
 
     used = set()
     kids = [decl(1, used) for _ in range(rng.randint(0, 4))]
-    n = name(set(), [v[1] for _, v in kids])
-    sx = "(fds %s %s %s (%s))" % (tx(rnd_case(rng, "dataset")), tx(n), gs_sexp(gen_gaps(rng, 4)),
+    n = name(set(), [v[1] for _, v in kids], raw=True)
+    sx = "(fds %s %s %s (%s))" % (tx(rnd_case(rng, "dataset")), tx(RAW[n]), gs_sexp(gen_gaps(rng, 4)),
                                   " ".join(k for k, _ in kids))
     return sx, ("ds", n, [v for _, v in kids])
 
@@ -779,7 +849,7 @@ def check_lean_foreign(ctx, P, rng, n, cases):
         cases.append(("dds-fdecl " + sx, dump, {"text": text}))
         cases.append(("dds-parse " + hexb(text.encode("latin-1")), dump, {"text": text}))
         ctx.count(("lean-foreign", text), True, tag="foreign:lean-printer", sample={"foreign(lean)": text[:200]})
-        for f in sorted(foreign_features(view) | ({"foreign-partially-named-dimensions(print not judged)"}
+        for f in sorted(foreign_features(view) | ({"foreign-partially-named-dimensions(shape kept, names dropped)"}
                                                   if partially_named(view) else set())):
             ctx.tags["feature:" + f] += 1
         for what, obs, exp in bad:
@@ -881,11 +951,10 @@ def check_foreign(ctx, P, rng, cases):
     case = {"kind": "foreign", "text": text, "declared": view}
     bad, d, dump = judge_foreign(P, text, view)
     cases.append(("dds-parse " + hexb(text.encode()), dump, {"text": text}))
-    if not partially_named(view):
-        ref = reference_text(implicit_dims(view))
-        cases.append(("dds-parse " + hexb(ref.encode()), impl_parse(P, ref)[1], {"text": ref}))
+    ref = reference_text(implicit_dims(declared_structure(view)))
+    cases.append(("dds-parse " + hexb(ref.encode()), impl_parse(P, ref)[1], {"text": ref}))
     ctx.count(("foreign", text), True, tag="foreign", sample={"foreign": text[:300]})
-    for f in sorted(foreign_features(view) | ({"foreign-partially-named-dimensions(print not judged)"}
+    for f in sorted(foreign_features(view) | ({"foreign-partially-named-dimensions(shape kept, names dropped)"}
                                               if partially_named(view) else set())):
         ctx.tags["feature:" + f] += 1
     for what, obs, exp in bad:
@@ -1006,7 +1075,10 @@ def run(ctx):
                 "(dims/shape length mismatch), fixed regression trees incl. a Sequence holding a real numpy "
                 "structured array, "
                 "foreign-style texts from the harness's own printer (Url/Int/UInt, anonymous dimensions, random "
-                "keyword case, random inter-token whitespace) and a malformed stream (mutated texts); Grids (trees, "
+                "keyword case, random inter-token whitespace; names of variables and containers spelled RAW in ~20% "
+                "of the draws: blank, '.', '&', '(', ']' ... inside a name, expected quoted - own_quote, the harness's "
+                "independent reference) and a malformed stream (mutated texts); identifiers starting with 'dap4' (3%); "
+                "Grids (trees, "
                 "foreign texts, input of the Lean foreign printer) hold their maps in dimension order (25%), reversed "
                 "(15%) or shuffled (60%), with maps that are no dimension of the array inserted anywhere (30%, half of "
                 "them first), a dimension without a map (15%), repeated (15%) or anonymous (15%) dimension names, "
@@ -1017,8 +1089,9 @@ def run(ctx):
     ctx.assumptions = ["DDS text is ASCII (DDSResponse encodes with 'ascii'); the model's character classes are the "
                        "ASCII restrictions of \\w, \\d, str.lstrip and re.IGNORECASE",
                        "np.dtype(s).char, int(), '{}'.format(int) and urllib.parse.quote are trusted Python/numpy",
-                       "names starting with 'dap4' (DAP4 path handling in _quote/DatasetType.__setitem__) are outside "
-                       "the model"]
+                       "names starting with 'dap4' whose first 8 characters are not all name_regexp characters "
+                       "(_quote passes them through raw; DAP4 path handling in DatasetType.__setitem__) are outside "
+                       "the model; identifiers starting with 'dap4' are generated"]
     ctx.proof_phase()
     explore(ctx, ctx.tier)
     return ctx.finish(search=lambda c: explore(c, "thorough", search=True), witnesses={})
